@@ -121,8 +121,8 @@ def _adversary_run(rec):
             return self.__dict__[name]
 
         def set_(self, v):
-            poke(self, name)
             self.__dict__[name] = v
+            poke(self, name)
 
         return property(get, set_)
 
